@@ -5,6 +5,7 @@ import (
 	"encoding/base64"
 	"fmt"
 	"log"
+	"strings"
 	"sync"
 
 	"github.com/jcmturner/gokrb5/v8/config"
@@ -103,6 +104,126 @@ func basicScenario(r *vh.Run, w *world, ck string, et int32, form, variant strin
 	for _, is := range w.k.Issues() {
 		secrets = append(secrets, leak.New(fmt.Sprintf("session-key:%s", is.SName), is.SessKey.Value, false))
 	}
+	r.Eval(ck, len(o.data) > 0)
+	if pnc {
+		r.Violation(fmt.Sprintf("C20|panic|%s|%s", pwhere, vh.PanicClass(pv)), "panicked while collecting surfaces: "+pv, map[string]any{"case": ck})
+	}
+	check(r, ck, o, secrets)
+}
+
+// basicMalformedShapes: ways in which a client (or a proxy in front of the service) hands over "user:password" that is NOT the
+// well-formed base64 of RFC 7617, plus well-formed values with unusual user parts. In every one the value holds the password, raw or
+// encoded, and the authenticator holds the value: whatever it answers, the password must not come back in the error or the logs.
+var basicMalformedShapes = []string{"not-encoded", "not-encoded-scheme-kept", "scheme-kept", "urlsafe-alphabet", "urlsafe-unpadded", "std-unpadded",
+	"no-colon", "password-only", "trailing-garbage", "leading-garbage", "garbage-in-user-part", "hex-encoded", "quoted", "percent-encoded", "doubled",
+	"line-wrapped", "empty-user", "both-realm-forms", "colon-in-user-realm"}
+
+func basicMalformedScenario(r *vh.Run, ck string, shape, form string) {
+	rnd := vh.NewRand("c20basic-malformed", ck)
+	o := newObs()
+	name := "basic-" + fmt.Sprintf("%x", vh.H64(ck))[:8]
+	// passwords are arbitrary text: this one has the characters whose base64 differs between the standard and the URL-safe alphabet
+	// (three in a row, so that one of them falls on the position where it matters whatever the user name's length)
+	specials := []string{"?>~", "~~~", ">?>", "???"}
+	pw := markerPassword(rnd, "basic") + specials[rnd.Intn(len(specials))] + markerPassword(rnd, "tail")
+	secrets := []*leak.Secret{leak.New("password:basic-auth", []byte(pw), true)}
+	var user string
+	switch form {
+	case "user@REALM":
+		user = name + "@" + realm
+	case `REALM\user`:
+		user = realm + `\` + name
+	default:
+		user = name
+	}
+	std := func(s string) string { return base64.StdEncoding.EncodeToString([]byte(s)) }
+	up := user + ":" + pw
+	const illegal = `!*,;"'()[]{}<>^|~#$&` // none of them is in either base64 alphabet
+	garbage := func() string { return string(illegal[rnd.Intn(len(illegal))]) }
+	var hdr string
+	switch shape {
+	case "not-encoded":
+		hdr = up
+	case "not-encoded-scheme-kept":
+		hdr = "Basic " + up
+	case "scheme-kept":
+		hdr = "Basic " + std(up)
+	case "urlsafe-alphabet":
+		hdr = base64.URLEncoding.EncodeToString([]byte(up))
+	case "urlsafe-unpadded":
+		hdr = base64.RawURLEncoding.EncodeToString([]byte(up))
+	case "std-unpadded":
+		hdr = base64.RawStdEncoding.EncodeToString([]byte(up))
+	case "no-colon":
+		hdr = std(user + pw)
+	case "password-only":
+		hdr = std(pw)
+	case "trailing-garbage":
+		hdr = std(up) + garbage()
+	case "leading-garbage":
+		hdr = garbage() + std(up)
+	case "garbage-in-user-part":
+		s := std(up)
+		i := rnd.Intn(4)
+		hdr = s[:i] + garbage() + s[i:]
+	case "hex-encoded":
+		hdr = fmt.Sprintf("%x", up)
+	case "quoted":
+		hdr = `"` + std(up) + `"`
+	case "percent-encoded":
+		hdr = strings.NewReplacer("+", "%2B", "/", "%2F", "=", "%3D").Replace(std(up))
+	case "doubled":
+		hdr = std(up) + std(up)
+	case "line-wrapped":
+		s := std(up)
+		for len(s) > 16 {
+			hdr += s[:16] + "\r\n"
+			s = s[16:]
+		}
+		hdr += s
+	case "empty-user":
+		hdr = std(":" + pw)
+	case "both-realm-forms":
+		hdr = std(realm + `\` + name + "@" + realm + ":" + pw)
+	case "colon-in-user-realm":
+		hdr = std(name + "@" + realm + ":" + realm + ":" + pw)
+	}
+	wellFormed := false
+	if b, e := base64.StdEncoding.DecodeString(hdr); e == nil && strings.Contains(string(b), ":") {
+		wellFormed = true // RFC 7617 value after all (e.g. the unpadded form of a length that needs no padding): a login is attempted
+	}
+	// should the value be taken as well formed, the login ends at once: the realm has no KDC
+	cfg, err := config.NewFromString(fmt.Sprintf("[libdefaults]\n default_realm = %s\n dns_lookup_kdc = false\n dns_lookup_realm = false\n[realms]\n %s = {\n  admin_server = 127.0.0.1:9\n }\n", realm, realm))
+	if err != nil {
+		r.Inconclusive(err.Error())
+		return
+	}
+	kt := keytab.New()
+	k := kcrypto.RandomToKey(18, rnd.Bytes(kcrypto.SeedLen(18)))
+	secrets = append(secrets, leak.New("longterm-key:service-keytab", k, false))
+	if err := kt.Unmarshal(accept.KeytabV2([]accept.KeytabEntry{{Realm: realm, Name: kmsg.N(2, "HTTP", "host.test.gokrb5"), Kvno: 1, Etype: 18, Key: k, Timestamp: 1}})); err != nil {
+		r.Inconclusive(err.Error())
+		return
+	}
+	logger := log.New(logWriter{o, "log/service"}, "", 0)
+	set := service.NewSettings(kt, service.Logger(logger), service.SName("HTTP/host.test.gokrb5"))
+	pnc, pv, pwhere := vh.Guard(func() {
+		a := service.NewKRB5BasicAuthenticator(hdr, cfg, set, nil)
+		id, ok, err := a.Authenticate()
+		o.err("BasicAuthenticator.Authenticate-malformed", err)
+		r.Inc("basic_unusual_values")
+		switch {
+		case ok:
+			r.Inc("observe_basic_unusual_value_authenticated")
+		case wellFormed:
+			r.Inc("basic_unusual_values_well_formed_after_all")
+		case err != nil:
+			r.Inc("basic_malformed_values_rejected")
+		}
+		if id != nil {
+			o.add("print/identity-accessors", []byte(fmt.Sprintf("%s|%s|%s|%v|%v", id.UserName(), id.Domain(), id.DisplayName(), id.AuthzAttributes(), id.Attributes())))
+		}
+	})
 	r.Eval(ck, len(o.data) > 0)
 	if pnc {
 		r.Violation(fmt.Sprintf("C20|panic|%s|%s", pwhere, vh.PanicClass(pv)), "panicked while collecting surfaces: "+pv, map[string]any{"case": ck})
